@@ -167,4 +167,90 @@ theorem toValidUTF8Coded_eq (s : Bytes) : toValidUTF8Coded s = toValidUTF8 s := 
     congr 1
     exact toValidAux_fuel _ _ _ _ (Nat.le_refl _) (by simp only [List.length_drop]; omega)
 
+/-! ## the class of header values on which `mediaType` is `mime.ParseMediaType` -/
+
+/-- `mime.isTokenChar`: a printable ASCII byte that is not one of `()<>@,;:\"/[]?=` (and not a space) -/
+def isTokenByte (b : UInt8) : Bool :=
+  0x20 < b.toNat && b.toNat < 0x7F &&
+    !([0x28, 0x29, 0x3C, 0x3E, 0x40, 0x2C, 0x3B, 0x3A, 0x5C, 0x22, 0x2F, 0x5B, 0x5D, 0x3F, 0x3D] : Bytes).contains b
+
+def isToken (t : Bytes) : Bool := t != [] && t.all isTokenByte
+
+/-- `checkMediaTypeDisposition`: `token [ "/" token ]` and nothing else -/
+def wfTypeSubtype (t : Bytes) : Bool :=
+  isToken (t.takeWhile (· ≠ 0x2F)) &&
+    (match t.dropWhile (· ≠ 0x2F) with
+     | [] => true
+     | _ :: sub => isToken sub)
+
+def splitOnByte (d : UInt8) : Bytes → List Bytes
+  | [] => [[]]
+  | b :: bs =>
+    if b = d then [] :: splitOnByte d bs
+    else match splitOnByte d bs with
+      | [] => [[b]]
+      | h :: t => (b :: h) :: t
+
+/-- key of a `key=value` segment, lower-cased as `consumeMediaParam` does -/
+def paramKey (p : Bytes) : Bytes := (p.takeWhile (· ≠ 0x3D)).map lowerByte
+
+/-- one parameter after `;` and the surrounding white space are removed: `token "=" (token | quoted-string)`; the
+    quoted strings of the class contain printable ASCII without `"`, `\` and `;` (a conservative sub-class of what
+    `consumeValue` accepts: no escapes, no `;` inside quotes) -/
+def wfParam (p : Bytes) : Bool :=
+  isToken (p.takeWhile (· ≠ 0x3D)) &&
+    (match p.dropWhile (· ≠ 0x3D) with
+     | [] => false
+     | _ :: 0x22 :: q =>
+       q.getLast? == some 0x22 &&
+         q.dropLast.all (fun b => 0x20 ≤ b.toNat && b.toNat < 0x7F && b != 0x22 && b != 0x5C && b != 0x3B)
+     | _ :: v => isToken v)
+
+/-- THE WELL-FORMED CLASS, decidable: the value is `OWS type["/"subtype] OWS *( ";" OWS key=value OWS ) [ ";" OWS ]`
+    with pairwise distinct (case-insensitive) keys. On this class `mime.ParseMediaType` returns no error and its media
+    type is `mediaType v`; outside of it `ParseMediaType` may fail (duplicate or malformed parameter, bad token) and
+    `pickRequestMarshaler` then skips the value, which `mediaType` does not model. White space is the model's
+    (SP, HT, LF, CR): other `unicode.IsSpace` bytes fail the token tests, so the class excludes them. -/
+def wfMediaValue (v : Bytes) : Bool :=
+  match splitOnByte 0x3B v with
+  | [] => false
+  | base :: ps =>
+    let ps' := if (ps.getLast?.map trim) == some [] then ps.dropLast else ps
+    wfTypeSubtype ((trim base).map lowerByte) &&
+      ps'.all (fun p => wfParam (trim p)) &&
+      decide ((ps'.map (fun p => paramKey (trim p))).Nodup)
+
+theorem findSome_mediaType (ms : List Marshaler) (ct : List Bytes) :
+    ct.findSome? (fun v => lookup ms (mediaType v)) = (ct.map mediaType).findSome? (lookup ms) := by
+  induction ct with
+  | nil => rfl
+  | cons a t ih => simp only [List.findSome?, List.map_cons, ih]
+
+/-- `pickRequestMarshaler` sees its header values through `mediaType` only -/
+theorem pickRequest_mediaType (ms : List Marshaler) (d : Marshaler) (c c' : List Bytes)
+    (h : c'.map mediaType = c.map mediaType) : pickRequest ms d c' = pickRequest ms d c := by
+  unfold pickRequest
+  rw [findSome_mediaType, findSome_mediaType, h]
+  have hn : c' = [] ↔ c = [] := by
+    rw [← List.map_eq_nil_iff (f := mediaType) (l := c'), h, List.map_eq_nil_iff]
+  by_cases hc : c = []
+  · simp [hc, hn.mpr hc]
+  · have hc' : ¬ c' = [] := fun h' => hc (hn.mp h')
+    simp [hc, hc']
+
+theorem trimLeft_spaces_append (pre x : Bytes) (h : ∀ b ∈ pre, isSpace b = true) : trimLeft (pre ++ x) = trimLeft x := by
+  induction pre with
+  | nil => rfl
+  | cons a t ih =>
+    have ha := h a (by simp)
+    simp only [List.cons_append, trimLeft, ha, ↓reduceIte]
+    exact ih (fun b hb => h b (by simp [hb]))
+
+theorem trimLeft_nonspace (x : Bytes) (h : x.head?.all (fun b => !isSpace b) = true) : trimLeft x = x := by
+  cases x with
+  | nil => rfl
+  | cons a t =>
+    simp only [List.head?_cons, Option.all_some, Bool.not_eq_eq_eq_not, Bool.not_true] at h
+    simp [trimLeft, h]
+
 end GB.C13
